@@ -70,6 +70,7 @@ fn run_detector(segments: &[Vec<DltMessage>], second_thread: bool) -> Obs {
     let originals: Vec<DltMessage> = segments.iter().flatten().cloned().collect();
     let delivered = RefCell::new(Vec::new());
     let delivered_flags = RefCell::new(vec![false; originals.len()]);
+    let first_undelivered = RefCell::new(0usize); // everything before it has been delivered (keeps the search linear over a run)
     // optional reader in another thread: synchronous hand-shake, so its answer reflects the moment of delivery
     let (req_tx, req_rx) = std::sync::mpsc::sync_channel::<(LifecycleId, adlt::dlt::DltChar4)>(0);
     let (rsp_tx, rsp_rx) = std::sync::mpsc::sync_channel::<bool>(0);
@@ -111,7 +112,11 @@ fn run_detector(segments: &[Vec<DltMessage>], second_thread: bool) -> Obs {
                 // which input is this? the first not yet delivered input equal to it in everything but the lifecycle
                 // (delivery must be in input order, so normally that is the next one); -1 / not intact if there is none
                 let mut dl = delivered_flags.borrow_mut();
-                let start = dl.iter().position(|d| !*d).unwrap_or(originals.len());
+                let start = {
+                    let mut c = first_undelivered.borrow_mut();
+                    while *c < dl.len() && dl[*c] { *c += 1; }
+                    *c
+                };
                 let same = |o: &DltMessage| {
                     let mut o2 = o.clone();
                     o2.lifecycle = m.lifecycle;
@@ -175,12 +180,22 @@ fn rid(id: u32, base: u32) -> u32 {
 }
 
 fn write_trace(t: &mut Trace, case: u64, hdr: Value, inputs: &[In], obs: &Obs) {
+    write_trace_opt(t, case, hdr, inputs, obs, None)
+}
+/// with `summary`: the per-message `in` / `out` events are replaced by that one event (huge cases)
+fn write_trace_opt(t: &mut Trace, case: u64, hdr: Value, inputs: &[In], obs: &Obs, summary: Option<Value>) {
     t.ev(json!({"ev":"reset","case":case,"hdr":hdr}));
     let base = id_base(obs);
+    let big = summary.is_some();
+    if let Some(sm) = summary {
+        t.ev(sm);
+    }
     for (i, x) in inputs.iter().enumerate() {
+        if big { break; }
         t.ev(json!({"ev":"in","idx":i,"ecu":x.ecu,"rx_ms":((x.rx_us.saturating_sub(epoch()))/1000) as u32 & 0x7fff_ffff,"ts":x.ts_dms & 0x7fff_ffff,"kind":x.kind,"boot":x.boot,"ix":x.index.map(|v| (v & 0x7fff_ffff) as i64).unwrap_or(i as i64)}));
     }
     for d in &obs.delivered {
+        if big { break; }
         t.ev(json!({"ev":"out","idx":d.0,"ecu":d.1,"lc":rid(d.2, base),"visible":d.3,"ecu_ok":d.4,"vis2":d.5,"intact":d.6}));
     }
     if let Some(p) = &obs.panic {
@@ -620,6 +635,39 @@ fn main() {
         let obs = run_detector(&[msgs_of(&inputs, 0)], false);
         if obs.panic.is_some() { panics += 1; }
         write_trace(&mut t, case, json!({"kind":"stream","src":"bigtable","prepop":false,"boots":[]}), &inputs, &obs);
+        case += 1;
+    }
+    // ---- huge queues: more than 2^20 / 10^6 messages wait in the detector's queue while a lifecycle is unconfirmed (scale classes the
+    //      bounded models abstract away); recorded as ONE summary event per case (counts only - TLC judges them)
+    for k in 0..a.num("--huge", 0) {
+        let n: u64 = [1_000_050u64, 1_048_600, 1_300_000][(k % 3) as usize];
+        let mut inputs = vec![grid_in("B", 1000, 1, "norm"), grid_in("B", 1000, 2, "norm")];
+        for i in 0..n {
+            // all within 10 ticks of reception time and 10 ticks of uptime: nothing can be confirmed meanwhile
+            inputs.push(grid_in("A", 1000 + i * 10 / n, 1 + i * 10 / n, if i % 1000 == 999 { "ctrl" } else { "norm" }));
+        }
+        for j in 0..6u64 {
+            inputs.push(grid_in(if j % 2 == 0 { "A" } else { "B" }, 1075 + j, 80 + j, "norm"));
+        }
+        let obs = run_detector(&[msgs_of(&inputs, 0)], false);
+        if obs.panic.is_some() { panics += 1; }
+        let mut per: BTreeMap<(u32, String), u64> = BTreeMap::new();
+        let base = id_base(&obs);
+        let (mut first_mis, mut not_intact, mut unassigned, mut invisible) = (-1i64, 0u64, 0u64, 0u64);
+        for (pos, d) in obs.delivered.iter().enumerate() {
+            if d.0 != pos as i64 && first_mis < 0 { first_mis = pos as i64; }
+            if !d.6 { not_intact += 1; }
+            if d.2 == 0 { unassigned += 1; }
+            if !(d.3 && d.4 && d.5) { invisible += 1; }
+            *per.entry((rid(d.2, base), d.1.clone())).or_insert(0) += 1;
+        }
+        let mut per_in: BTreeMap<String, u64> = BTreeMap::new();
+        for i in &inputs { *per_in.entry(i.ecu.clone()).or_insert(0) += 1; }
+        let summary = json!({"ev":"big_out","n_out":obs.delivered.len(),"first_misordered":first_mis,"not_intact":not_intact,"unassigned":unassigned,
+            "invisible":invisible,"per":per.iter().map(|((lc, ecu), n)| json!({"lc":lc,"ecu":ecu,"n":n})).collect::<Vec<Value>>()});
+        let hdr = json!({"kind":"big","src":"huge-queue","prepop":false,"boots":[],"n":inputs.len(),
+            "per_in":per_in.iter().map(|(e, n)| json!({"ecu":e,"n":n})).collect::<Vec<Value>>()});
+        write_trace_opt(&mut t, case, hdr, &inputs, &obs, Some(summary));
         case += 1;
     }
     // ---- clean-boot traces (C08)
